@@ -19,6 +19,7 @@ from ..treeenv import get_tree_env, TreeRejected, closure, prune_tree, element_d
 
 ID = "C03"
 LEVEL = "fault_enumeration"
+SELFTEST_N = 64
 BATCH = 2
 DOUBLE_EVERY = 41
 TASK_LIMIT_S = 1200
